@@ -2,6 +2,7 @@ import DclabModel.Model.Feat
 import Mathlib.Tactic.Ring
 import Mathlib.Tactic.FieldSimp
 import Mathlib.Tactic.Linarith
+import Mathlib.Tactic.LinearCombination
 import Mathlib.Algebra.Order.Field.Basic
 /-! Helper lemmas for C18: cyclic sums, translation/axis-swap laws of the raw contour sums,
 path sums of the cone formula, masked statistics, percentile, duplicate removal. -/
@@ -632,5 +633,221 @@ theorem ne_zero_of_rabs_gt {e a : Rat} (he : 0 ≤ e) (h : rabs a > e) : a ≠ 0
   subst h0
   have : rabs 0 = 0 := by decide +kernel
   rw [this] at h; linarith
+
+/-! ## batch brightness, contour cache -/
+
+theorem subOff_none (v : List Rat) : subOff v .none = some v := rfl
+
+theorem subOff_scalar (v : List Rat) (o : Rat) : subOff v (.scalar o) = some (v.map (· - o)) := rfl
+
+theorem subOff_array_eq_len (v os : List Rat) (h : os.length = v.length) :
+    subOff v (.array os) = some (List.zipWith (· - ·) v os) := by
+  simp [subOff, h]
+
+theorem zipWith_map_shift (g : List Px → Rat) (hg : ∀ d px, masked px ≠ [] → g (bgShift d px) = g px - d) :
+    ∀ (os : List Rat) (ev : List (List Px)), os.length = ev.length → (∀ px ∈ ev, masked px ≠ []) →
+      (bgShiftEach os ev).map g = List.zipWith (· - ·) (ev.map g) os := by
+  intro os
+  induction os with
+  | nil => intro ev h _; cases ev <;> simp_all [bgShiftEach]
+  | cons o os ih =>
+    intro ev h hne
+    cases ev with
+    | nil => simp at h
+    | cons px ev =>
+      simp only [List.length_cons, Nat.add_right_cancel_iff] at h
+      have h1 := ih ev h (fun p hp => hne p (List.mem_cons_of_mem _ hp))
+      simp only [bgShiftEach] at h1 ⊢
+      simp only [List.zipWith_cons_cons, List.map_cons, h1, hg o px (hne px List.mem_cons_self)]
+
+theorem map_const_shift (g : List Px → Rat) (hg : ∀ d px, g (bgShift d px) = g px) :
+    ∀ (os : List Rat) (ev : List (List Px)), os.length = ev.length →
+      (bgShiftEach os ev).map g = ev.map g := by
+  intro os
+  induction os with
+  | nil => intro ev h; cases ev <;> simp_all [bgShiftEach]
+  | cons o os ih =>
+    intro ev h
+    cases ev with
+    | nil => simp at h
+    | cons px ev =>
+      simp only [List.length_cons, Nat.add_right_cancel_iff] at h
+      have h1 := ih ev h
+      simp only [bgShiftEach] at h1 ⊢
+      simp only [List.zipWith_cons_cons, List.map_cons, h1, hg o px]
+
+theorem zipWith_sub_replicate (v : List Rat) (o : Rat) :
+    List.zipWith (· - ·) v (List.replicate v.length o) = v.map (· - o) := by
+  induction v with
+  | nil => rfl
+  | cons a v ih => simp only [List.length_cons, List.replicate_succ, List.zipWith_cons_cons, ih, List.map_cons]
+
+theorem lclFind_get (i : Nat) : ∀ (l : List Nat) (q : Nat), lclFind i l = some q → l[q]? = some i := by
+  intro l
+  induction l with
+  | nil => intro q h; simp [lclFind] at h
+  | cons j r ih =>
+    intro q h
+    simp only [lclFind] at h
+    split at h
+    · rename_i hj; cases h; simp [hj]
+    · cases hq : lclFind i r with
+      | none => simp [hq] at h
+      | some q' =>
+        simp only [hq, Option.map_some, Option.some.injEq] at h
+        subst h
+        simpa using ih q' hq
+
+theorem lclFind_none (i : Nat) : ∀ (l : List Nat), lclFind i l = none → i ∉ l := by
+  intro l
+  induction l with
+  | nil => intro _; simp
+  | cons j r ih =>
+    intro h
+    simp only [lclFind] at h
+    split at h
+    · cases h
+    · rename_i hj
+      cases hq : lclFind i r with
+      | none =>
+        have := ih hq
+        simp only [List.mem_cons, not_or]
+        exact ⟨fun e => hj e.symm, this⟩
+      | some q' => simp [hq] at h
+
+theorem lclPush_map (f : α → β) (m : Nat) (l : List α) (x : α) :
+    (lclPush m l x).map f = lclPush m (l.map f) (f x) := by
+  unfold lclPush
+  simp only [List.length_append, List.length_map, List.length_singleton]
+  split
+  · simp [List.map_drop]
+  · simp
+
+theorem lclPush_length_le (m : Nat) (l : List α) (x : α) (hm : m ≠ 0) (hl : l.length ≤ m) :
+    (lclPush m l x).length ≤ m := by
+  unfold lclPush
+  simp only [List.length_append, List.length_singleton]
+  split
+  · simp only [List.length_drop, List.length_append, List.length_singleton]; omega
+  · rename_i h
+    simp only [List.length_append, List.length_singleton]
+    have : ¬ (l.length + 1 > m) := fun hh => h ⟨hm, hh⟩
+    omega
+
+theorem lclPush_mem (m : Nat) (l : List α) (x y : α) (h : y ∈ lclPush m l x) : y ∈ l ∨ y = x := by
+  unfold lclPush at h
+  simp only at h
+  split at h
+  · have := List.mem_of_mem_drop h
+    simpa using this
+  · simpa using h
+
+/-! ## rotation -/
+
+theorem a00_rot (c s : Rat) (h : c * c + s * s = 1) (cont : List Pt) :
+    a00 (cont.map (rot c s)) = a00 cont := by
+  unfold a00
+  rw [cyc_map]
+  have : (fun p q => t00 (rot c s p) (rot c s q)) = fun p q => (c * c + s * s) * t00 p q := by
+    funext p q; obtain ⟨x0, y0⟩ := p; obtain ⟨x1, y1⟩ := q
+    simp only [rot, dxy, t00]; ring
+  rw [this, h, cyc_mul]; ring
+
+theorem a10_rot (c s : Rat) (h : c * c + s * s = 1) (cont : List Pt) :
+    a10 (cont.map (rot c s)) = c * a10 cont + (-s) * a01 cont := by
+  unfold a10 a01
+  rw [cyc_map]
+  have : (fun p q => t10 (rot c s p) (rot c s q))
+      = fun p q => (c * c + s * s) * (c * t10 p q + (-s) * t01 p q) := by
+    funext p q; obtain ⟨x0, y0⟩ := p; obtain ⟨x1, y1⟩ := q
+    simp only [rot, dxy, t10, t01]; ring
+  rw [this, h]
+  simp only [cyc_add, cyc_mul]; ring
+
+theorem a01_rot (c s : Rat) (h : c * c + s * s = 1) (cont : List Pt) :
+    a01 (cont.map (rot c s)) = s * a10 cont + c * a01 cont := by
+  unfold a10 a01
+  rw [cyc_map]
+  have : (fun p q => t01 (rot c s p) (rot c s q))
+      = fun p q => (c * c + s * s) * (s * t10 p q + c * t01 p q) := by
+    funext p q; obtain ⟨x0, y0⟩ := p; obtain ⟨x1, y1⟩ := q
+    simp only [rot, dxy, t10, t01]; ring
+  rw [this, h]
+  simp only [cyc_add, cyc_mul]; ring
+
+theorem a20_rot (c s : Rat) (h : c * c + s * s = 1) (cont : List Pt) :
+    a20 (cont.map (rot c s)) = (c * c) * a20 cont + (-(c * s)) * a11 cont + (s * s) * a02 cont := by
+  unfold a20 a11 a02
+  rw [cyc_map]
+  have : (fun p q => t20 (rot c s p) (rot c s q))
+      = fun p q => (c * c + s * s) * ((c * c) * t20 p q + (-(c * s)) * t11 p q + (s * s) * t02 p q) := by
+    funext p q; obtain ⟨x0, y0⟩ := p; obtain ⟨x1, y1⟩ := q
+    simp only [rot, dxy, t20, t11, t02]; ring
+  rw [this, h]
+  simp only [cyc_add, cyc_mul]; ring
+
+theorem a02_rot (c s : Rat) (h : c * c + s * s = 1) (cont : List Pt) :
+    a02 (cont.map (rot c s)) = (s * s) * a20 cont + (c * s) * a11 cont + (c * c) * a02 cont := by
+  unfold a20 a11 a02
+  rw [cyc_map]
+  have : (fun p q => t02 (rot c s p) (rot c s q))
+      = fun p q => (c * c + s * s) * ((s * s) * t20 p q + (c * s) * t11 p q + (c * c) * t02 p q) := by
+    funext p q; obtain ⟨x0, y0⟩ := p; obtain ⟨x1, y1⟩ := q
+    simp only [rot, dxy, t20, t11, t02]; ring
+  rw [this, h]
+  simp only [cyc_add, cyc_mul]; ring
+
+theorem a11_rot (c s : Rat) (h : c * c + s * s = 1) (cont : List Pt) :
+    a11 (cont.map (rot c s))
+      = (2 * (c * s)) * a20 cont + (c * c - s * s) * a11 cont + (-(2 * (c * s))) * a02 cont := by
+  unfold a20 a11 a02
+  rw [cyc_map]
+  have : (fun p q => t11 (rot c s p) (rot c s q))
+      = fun p q => (c * c + s * s) * ((2 * (c * s)) * t20 p q + (c * c - s * s) * t11 p q
+          + (-(2 * (c * s))) * t02 p q) := by
+    funext p q; obtain ⟨x0, y0⟩ := p; obtain ⟨x1, y1⟩ := q
+    simp only [rot, dxy, t20, t11, t02]; ring
+  rw [this, h]
+  simp only [cyc_add, cyc_mul]; ring
+
+/-- the four numbers `get_inert_ratio_prnc` uses transform as a tensor -/
+theorem rotatedSecond_eq (e c s : Rat) (h : c * c + s * s = 1) (cont : List Pt) :
+    rotatedSecond e c s cont =
+      ((momentsCore e cont).m00,
+       c * c * (momentsCore e cont).mu20 - 2 * (c * s) * (momentsCore e cont).mu11
+         + s * s * (momentsCore e cont).mu02,
+       c * s * ((momentsCore e cont).mu20 - (momentsCore e cont).mu02)
+         + (c * c - s * s) * (momentsCore e cont).mu11,
+       s * s * (momentsCore e cont).mu20 + 2 * (c * s) * (momentsCore e cont).mu11
+         + c * c * (momentsCore e cont).mu02) := by
+  simp only [rotatedSecond, momentsCore, central, rawMoments, a00_rot c s h, a10_rot c s h,
+    a01_rot c s h, a20_rot c s h, a02_rot c s h, a11_rot c s h]
+  by_cases hc : a00 cont * (sgn (a00 cont) * (1 / 2)) > e
+  · simp only [hc, if_true, Prod.mk.injEq]
+    refine ⟨trivial, ?_, ?_, ?_⟩ <;> ring
+  · simp only [hc, if_false, Prod.mk.injEq]
+    refine ⟨trivial, ?_, ?_, ?_⟩ <;> ring
+
+
+theorem rot_rot (c s c' s' : Rat) (cont : List Pt) :
+    (cont.map (rot c s)).map (rot c' s') = cont.map (rot (c' * c - s' * s) (s' * c + c' * s)) := by
+  rw [List.map_map]
+  congr 1; funext p; obtain ⟨x, y⟩ := p
+  simp only [Function.comp, rot, Prod.mk.injEq]; constructor <;> ring
+
+theorem rot_unit (c s c' s' : Rat) (h : c * c + s * s = 1) (h' : c' * c' + s' * s' = 1) :
+    (c' * c - s' * s) * (c' * c - s' * s) + (s' * c + c' * s) * (s' * c + c' * s) = 1 := by
+  linear_combination (c' * c' + s' * s') * h + h'
+
+/-- two ordered pairs with the same sum and product are equal -/
+theorem ordered_pair_unique (x1 y1 x2 y2 : Rat) (hs : x1 + y1 = x2 + y2) (hp : x1 * y1 = x2 * y2)
+    (o1 : y1 ≤ x1) (o2 : y2 ≤ x2) : x1 = x2 ∧ y1 = y2 := by
+  have hsq : ((x1 - y1) - (x2 - y2)) * ((x1 - y1) + (x2 - y2)) = 0 := by
+    linear_combination (x1 + y1 + x2 + y2) * hs - 4 * hp
+  rcases mul_eq_zero.mp hsq with hd | hd
+  · constructor <;> linarith
+  · have h1 : x1 - y1 = 0 := by linarith
+    have h2 : x2 - y2 = 0 := by linarith
+    constructor <;> linarith
 
 end DclabModel.Feat
